@@ -600,6 +600,11 @@ def highQcProposalCheck_index : Int := %d
 			return "", fmt.Errorf("bft/bft.go: %s not found", fn)
 		}
 		fmt.Fprintf(&b, "def src_%s : String := %q\n", fn, g.StmtsText(bftDropStmts(fd.Body.List, isLog)))
+		var stmts []string
+		for _, st := range bftDropStmts(fd.Body.List, isLog) {
+			stmts = append(stmts, fmt.Sprintf("%q", g.StmtText(st)))
+		}
+		fmt.Fprintf(&b, "/-- the top-level statements of %s, in order -/\ndef src_%s_stmts : List String := [%s]\n", fn, fn, strings.Join(stmts, ", "))
 	}
 	// ---- liveness (C15): pacemaker threshold, wait-time arithmetic
 	utilF, err := g.ParseFile(filepath.Join(*repo, "lib/util.go"))
